@@ -289,7 +289,10 @@ def parse_cbmc_json(path):
     try:
         data = json.load(open(path))
     except Exception as e:
-        txt = open(path, 'rb').read().decode('utf-8', 'replace')
+        try:
+            txt = open(path, 'rb').read().decode('utf-8', 'replace')
+        except Exception:
+            txt = 'no output file %s' % path
         return None, txt[-3000:], 0.0, 'PARSE-ERROR'
     results = None
     msgs = []
